@@ -28,13 +28,14 @@ BOUNDS = {'quick': {'ndim': '1-2 (3 for Resampling with concrete grids)', 'nodes
                     'float32 claimed'}}
 OUTSIDE = ['rounding of symbolic evaluation points (the engine computes over the reals; concrete float64 points next '
            'to ties and nodes with float32 / complex64 values are covered)',
-           'string dtype for nearest interpolation', 'symbolic coordinate vectors (concrete non-uniform ones are used)',
+           'string dtype for nearest interpolation', 'symbolic coordinate vectors beyond 3 nodes in 1-d (concrete non-uniform ones are used elsewhere)',
            'more than one cell outside the hull']
 ASSUMPTIONS = []
 SETTINGS = {'max_paths': 2000, 'tol': None, 'obligation_timeout_ms': 20000}
 CFG_TIMEOUT = {'quick': 240, 'thorough': 900}
 CV1 = [0.0, 0.5, 2.0, 3.0]
 CV2 = [[0.0, 1.0, 1.5], [-1.0, 0.0, 2.0]]
+CV6 = [-2.0, -1.5, 0.0, 0.25, 2.0, 3.5]
 
 
 def configs(tier, seed):
@@ -51,6 +52,9 @@ def configs(tier, seed):
     for scheme in (['linear', 'linear'], ['nearest', 'nearest'], ['nearest', 'linear'], ['linear', 'nearest']):
         out.append(('interp/2d/%s' % '+'.join(scheme), dict(kind='interp2', scheme=scheme)))
     out.append(('interp/2d/calling-conventions', dict(kind='conventions')))
+    for scheme in ('nearest', 'linear'):
+        out.append(('interp/1d/%s/symbolic-nodes' % scheme, dict(kind='interp1', scheme=scheme, cv='symbolic')))
+        out.append(('interp/1d/%s/symbolic-nodes/affine' % scheme, dict(kind='affine1', scheme=scheme, cv='symbolic')))
     for scheme in ('nearest', 'linear'):
         out.append(('interp/1d/%s/outside-hull' % scheme, dict(kind='outside1', scheme=scheme)))
     for scheme in (['linear', 'nearest', 'linear'], ['nearest', 'linear', 'linear'], ['nearest', 'nearest', 'nearest']):
@@ -71,6 +75,23 @@ def configs(tier, seed):
                    ['linear', 'linear', 'linear']):
         out.append(('resampling/3d/%s' % '+'.join(scheme), dict(kind='resampling', scheme=scheme)))
     out.append(('resampling/1d', dict(kind='resampling', scheme=['linear'])))
+    if tier == 'thorough':
+        # more nodes per axis, all 8 per-axis combinations in 3-d, all 2-d combinations outside the hull
+        for scheme in ('nearest', 'linear'):
+            out.append(('interp/1d/%s/6-nodes' % scheme, dict(kind='interp1', scheme=scheme, cv=CV6)))
+            out.append(('interp/1d/%s/6-nodes/outside-hull' % scheme, dict(kind='outside1', scheme=scheme, cv=CV6)))
+            out.append(('interp/1d/%s/float32-values/6-nodes' % scheme,
+                        dict(kind='fixedpoints', scheme=scheme, dtype='float32', cv=CV6)))
+        for scheme in itertools.product(('nearest', 'linear'), repeat=3):
+            cid = 'interp/3d/%s' % '+'.join(scheme)
+            if cid not in dict(out):
+                out.append((cid, dict(kind='interp3', scheme=list(scheme))))
+            cid = 'resampling/3d/%s' % '+'.join(scheme)
+            if cid not in dict(out):
+                out.append((cid, dict(kind='resampling', scheme=list(scheme))))
+        for conv in ('vectorized', 'vectorize-decorator', 'in-place', 'dual-use'):
+            out.append(('sampling/2d/%s/complex' % conv, dict(kind='sampling', conv=conv, dtype='complex128')))
+            out.append(('sampling/2d/%s/float32' % conv, dict(kind='sampling', conv=conv, dtype='float32')))
     return out
 
 
@@ -223,7 +244,14 @@ def case(ctx, kind, conv=None, dtype='float64', nd=2, scheme=None, cv=None):
         ctx.eq('values-at-grid-points', el, [v + bump for v in ref] if bump else ref)
         return
     if kind in ('interp1', 'affine1'):
-        cv = CV1
+        symbolic_nodes = cv == 'symbolic'
+        if symbolic_nodes:
+            # strictly increasing symbolic coordinate vector (3 nodes)
+            cva = ctx.array('c', (3,), 'float64')
+            cv = list(flat(cva))
+            for i in range(2):
+                ctx.assume(cv[i] < cv[i + 1])
+        cv = cv or CV1
         n = len(cv)
         if kind == 'interp1':
             f = ctx.array('f', (n,), 'float64')
@@ -234,7 +262,7 @@ def case(ctx, kind, conv=None, dtype='float64', nd=2, scheme=None, cv=None):
             from symnp.sarray import wrap
             f = wrap(np.array(fl, dtype=object), np.dtype('float64')) if ctx.sym else np.array(fl, dtype=float)
         mk = du.nearest_interpolator if scheme == 'nearest' else du.linear_interpolator
-        interp = mk(f, [np.array(cv)])
+        interp = mk(f, [cva if symbolic_nodes else np.array(cv)])
         x = ctx.real('x')
         ctx.assume(x >= cv[0])
         ctx.assume(x <= cv[-1])
@@ -248,7 +276,7 @@ def case(ctx, kind, conv=None, dtype='float64', nd=2, scheme=None, cv=None):
         if kind == 'affine1' and scheme == 'linear':
             ctx.eq('exact-on-affine', got, a * x + b)
         # node reproduction and independence of the calling convention
-        nodes = interp(np.array(cv))
+        nodes = interp(cva if symbolic_nodes else np.array(cv))
         ctx.eq('node-reproduction', nodes, fl)
         x2 = ctx.real('x2')
         ctx.assume(x2 >= cv[0])
@@ -291,7 +319,7 @@ def case(ctx, kind, conv=None, dtype='float64', nd=2, scheme=None, cv=None):
         ctx.eq('node-reproduction', interp(np.array(cv)), fl)
         return
     if kind == 'outside1':
-        cv = CV1
+        cv = cv or CV1
         f = ctx.array('f', (len(cv),), 'float64')
         F = np.asarray(f, dtype=object) if ctx.sym else f
         interp = (du.nearest_interpolator if scheme == 'nearest' else du.linear_interpolator)(f, [np.array(cv)])
